@@ -112,8 +112,9 @@ def gen_coincidence(rng):
                                 ("  ", 2, 2), (" ", 3, 1)])
     name = "bcd"[:n] if n <= 3 else "b" * n
     inner = ("tag", "", name, [pp.space_attr("preserve")],
-             [("text", rng.choice(["x\n", "\n", "x\ny\n", " x \n ", "x\n\n", "x y"]))])
-    follow = rng.choice([[("text", "bb")], [("text", " bb cc")], [("text", "bb "), ("tag", "", "i", [], [])],
+             [("text", rng.choice(["x\n", "\n", "x\ny\n", " x \n", "x\n\n", "x\n", "x y", "x\n "]))])
+    follow = rng.choice([[("text", "bb")], [("text", "bb")], [("text", " bb cc")], [("text", "bb cc dd ee")],
+                         [("text", "bb "), ("tag", "", "i", [], [])], [("text", "unbreakablewordoftwentysix")],
                          [("tag", "", "i", [], [("text", "q")]), ("text", "bb")], [("comment", "c"), ("text", "bb dd")], []])
     lead = rng.choice([[], [("text", "aa ")], [("text", "aa")]])
     t = ("tag", "", "a", [], lead + [inner] + follow)
@@ -259,9 +260,9 @@ def run(ctx, args):
             check_docs(ctx, docs, max_sub=50, n0=3, nw=8, seen_rate=1.0)
         return ctx.finish("replay of " + args.replay, replay_open=replay_open)
     quick = ctx.tier == "quick"
-    docs = [("fixed", x, h) for x, h in FIXED] + gen_docs(ctx, 140 if quick else 4000)
-    check_docs(ctx, docs, max_sub=2 if quick else 6, n0=1 if quick else 3, nw=3 if quick else 12,
-               seen_rate=0.25 if quick else 0.5)
+    docs = [("fixed", x, h) for x, h in FIXED] + gen_docs(ctx, 140 if quick else 900)
+    check_docs(ctx, docs, max_sub=2 if quick else 4, n0=1 if quick else 2, nw=3 if quick else 6,
+               seen_rate=0.25 if quick else 0.3)
     return ctx.finish(
         rule="documents: fixed cases + random mixed-content documents of depth <= 3 (texts with words whose ends are "
              "biased to width-1/width/width+1, long unbreakable words, escaped characters, comments/PIs between texts, "
